@@ -141,6 +141,9 @@ func init() {
 			s1job("two-sessions", d, []string{"C03"}, 10, 600),
 			s1job("lifecycle", ld, []string{"C03", "C07"}, 3, 600),
 			s1job("entities", ld, []string{"C03", "C01", "C02"}, 3, 600),
+			// a session id recycled while its old session is still being removed
+			s2job("c07-lastleave-vs-create", 2, 300),
+			s2job("c07-create-vs-create", 1, 300),
 		}
 	}, check.PropInfo{
 		Rule:        s1Rule + " C03: the reference model has no cross-session channel by construction, so anything a member of one session receives because of traffic in another, or any state change there, is a mismatch; families with coinciding per-session ids, raw ids valid only in the other session, unjoined connections and reused session ids.",
